@@ -424,9 +424,9 @@ func init() {
 	checks["C11"] = func(prop, tier string) int {
 		t0 := time.Now()
 		rep := common.NewReport(prop)
-		secs := 90
+		secs := 240
 		if tier == "thorough" {
-			secs = 900
+			secs = 1200
 		}
 		outs, err := explore.RunShards([]string{"c11worker", tier, fmt.Sprint(time.Now().Add(time.Duration(secs) * time.Second).UnixNano())}, 0)
 		if err != nil {
@@ -469,7 +469,7 @@ func init() {
 			fmt.Println("INFRA: no case executed")
 			return 2
 		}
-		cl := []plan{{"snap3-d2", 60}, {"stalesuffix3-d2", 30}}
+		cl := []plan{{"snap3-d2", 80}, {"stalesuffix3-d2", 65}}
 		if tier == "thorough" {
 			cl = []plan{{"snap3-d3", 500}, {"bigsnap3-d2", 200}, {"stalesuffix3-d3", 300}}
 		}
